@@ -6,7 +6,8 @@
 
     Attribution of a failing [prop] to flag i: the pinned model reproduces the observation exactly
     ([corr]), flag i is pinned on, and the model with ONLY flag i switched off no longer fails at
-    the first observable that fails in the observation. *)
+    the first observable that fails in the observation (for [pipe], where two open defects can
+    each cause the same first failure, see [check_pipe]). *)
 From EG.lib Require Import Base.
 From EG.model Require Import RL Reload.
 Open Scope Z_scope.
@@ -78,9 +79,16 @@ Definition live_specs (rl : list (Z * nat)) : list nat :=
   last_spec (filter (fun '(p, _) => p =? 0) rl) ::
   map snd (filter (fun '(p, _) => (1 <=? p) && (p <=? 3)) rl).
 
+(** independent of the quiescent-mux oracle: a handler that ran was handed out by the MuxMapper of
+    the generation the answer is attributed to *)
+Definition mapper_ok (g : mx_gen) (got : mx_resp) : bool :=
+  negb (r_status got =? 200) || String.prefix (gn_mapper g ++ "/") (r_handler got).
+
 Definition sched_prop (c : sched_case) : bool :=
-  existsb (fun s => resp_eqb (sc_got c) (nth s (sc_expect c) resp0)) (live_specs (sc_reloads c)) &&
-  resp_eqb (sc_gotf c) (nth (last_spec (sc_reloads c)) (sc_expectf c) resp0).
+  existsb (fun s => resp_eqb (sc_got c) (nth s (sc_expect c) resp0) && mapper_ok (nth s (sc_gens c) gen0) (sc_got c))
+          (live_specs (sc_reloads c)) &&
+  resp_eqb (sc_gotf c) (nth (last_spec (sc_reloads c)) (sc_expectf c) resp0) &&
+  mapper_ok (nth (last_spec (sc_reloads c)) (sc_gens c) gen0) (sc_gotf c).
 
 Definition check_sched (pinned : rquirks) (c : sched_case) : result :=
   if sc_bad c then (true, true, 0%N, 0%N) else
@@ -117,7 +125,8 @@ Definition conc_corr_one (c : conc_case) (x : Z * nat * mx_resp) : bool :=
 
 Definition conc_prop_one (c : conc_case) (x : Z * nat * mx_resp) : bool :=
   let '(ph, ri, got) := x in
-  existsb (fun s => resp_eqb got (nth ri (nth s (cc_expect c) []) resp0)) (conc_allowed c ph).
+  existsb (fun s => resp_eqb got (nth ri (nth s (cc_expect c) []) resp0) && mapper_ok (nth s (cc_gens c) gen0) got)
+          (conc_allowed c ph).
 
 (** did the sample really contain answers of two different generations for one request? *)
 Definition conc_two_gens (c : conc_case) : bool :=
@@ -169,6 +178,33 @@ Fixpoint rl_replay (q : RL.quirks) (specs : list fspec) (w : fworld) (now : Z) (
       RHandle g dt m (match o with OHandle r => fout_code r | _ => 3 end) :: rl_replay q specs w' now' t
   end.
 
+(** limiter identities are compared up to renaming: both sides are renumbered in order of first
+    appearance (the harness can only number the pointers it sees; a limiter created by an Inherit
+    that then panics is never seen) *)
+Fixpoint canon_ids (m : list (Z * Z)) (ids : list Z) : list (Z * Z) * list Z :=
+  match ids with
+  | [] => (m, [])
+  | x :: t =>
+      if x <? 0 then let '(m', r) := canon_ids m t in (m', x :: r) else
+      match zlookup x m with
+      | Some y => let '(m', r) := canon_ids m t in (m', y :: r)
+      | None =>
+          let y := Z.of_nat (List.length m) in
+          let '(m', r) := canon_ids ((x, y) :: m) t in (m', y :: r)
+      end
+  end.
+
+Fixpoint canon_ops (m : list (Z * Z)) (ops : list rl_in) : list rl_in :=
+  match ops with
+  | [] => []
+  | RInit s d refs :: t => let '(m1, r) := canon_ids m refs in RInit s d r :: canon_ops m1 t
+  | RInherit s f d p refs fr :: t =>
+      let '(m1, r) := canon_ids m refs in
+      let '(m2, r2) := canon_ids m1 fr in
+      RInherit s f d p r r2 :: canon_ops m2 t
+  | o :: t => o :: canon_ops m t
+  end.
+
 Definition rl_in_eqb (a b : rl_in) : bool :=
   match a, b with
   | RInit s1 d1 r1, RInit s2 d2 r2 => Nat.eqb s1 s2 && (d1 =? d2) && list_eqb Z.eqb r1 r2
@@ -209,7 +245,8 @@ Fixpoint old_handled (inherited : list nat) (ops : list rl_in) : bool :=
 
 Definition check_rlf (pinned : rquirks) (c : rlf_case) : result :=
   if rc_bad c then (true, true, 0%N, 0%N) else
-  let corr := list_eqb rl_in_eqb (rl_replay (rl_quirks pinned) (rc_specs c) fworld0 0 (rc_ops c)) (rc_ops c) in
+  let corr := list_eqb rl_in_eqb (canon_ops [] (rl_replay (rl_quirks pinned) (rc_specs c) fworld0 0 (rc_ops c)))
+                                 (canon_ops [] (rc_ops c)) in
   let ff := first_false (rl_prop_steps [] (rc_ops c)) O in
   let prop := match ff with None => true | Some _ => false end in
   let ablated := first_false (rl_prop_steps [] (rl_replay (rl_quirks (without_steal pinned)) (rc_specs c) fworld0 0 (rc_ops c))) O in
@@ -218,7 +255,7 @@ Definition check_rlf (pinned : rquirks) (c : rlf_case) : result :=
    if negb prop && corr && rq_steal pinned && later ablated ff then 1%N else 0%N).
 
 Definition explain_rlf (pinned : rquirks) (c : rlf_case) :=
-  rl_replay (rl_quirks pinned) (rc_specs c) fworld0 0 (rc_ops c).
+  canon_ops [] (rl_replay (rl_quirks pinned) (rc_specs c) fworld0 0 (rc_ops c)).
 
 (** * grp "inh": kinds with Inherit = Init *)
 
@@ -379,14 +416,22 @@ Definition check_pipe (pinned : rquirks) (c : pipe_case) : result :=
   let corr := list_eqb obs_eqb (model pinned) (pc_obs c) in
   let ff := first_false (pipe_prop_steps [] (pc_ops c) (pc_obs c)) O in
   let prop := match ff with None => true | Some _ => false end in
-  let ab1 := first_false (pipe_prop_steps [] (pc_ops c) (model (without_steal pinned))) O in
-  let ab2 := first_false (pipe_prop_steps [] (pc_ops c) (model (without_foreign pinned))) O in
+  let ff_of q := first_false (pipe_prop_steps [] (pc_ops c) (model q)) O in
+  (* necessary cause: without flag i alone the first failure disappears (or moves later) *)
+  let nec1 := rq_steal pinned && later (ff_of (without_steal pinned)) ff in
+  let nec2 := rq_foreign pinned && later (ff_of (without_foreign pinned)) ff in
+  (* two open defects can each cause the same first failure (e.g. an update that changes one filter's
+     kind AND re-inherits a limiter that was already handed over): then neither is necessary; the
+     failure is attributed to a flag that alone is sufficient for it, provided the model without any
+     flag does not fail there *)
+  let ideal_ok := later (ff_of rideal) ff in
+  let suf1 := rq_steal pinned && ideal_ok && opt_eqb Nat.eqb (ff_of (without_foreign pinned)) ff in
+  let suf2 := rq_foreign pinned && ideal_ok && opt_eqb Nat.eqb (ff_of (without_steal pinned)) ff in
   (corr, prop,
    (1 + bN (pipe_old_handled [] (pc_ops c)) 1 + bN (existsb has_close (pc_obs c)) 2
       + bN (existsb has_inherit_ev (pc_obs c)) 4)%N,
    if negb prop && corr then
-     if rq_steal pinned && later ab1 ff then 1%N
-     else if rq_foreign pinned && later ab2 ff then 2%N else 0%N
+     if nec1 then 1%N else if nec2 then 2%N else if suf1 then 1%N else if suf2 then 2%N else 0%N
    else 0%N).
 
 Definition explain_pipe (pinned : rquirks) (c : pipe_case) := pl_run pinned (pc_specs c) pl_world0 (pc_ops c).
